@@ -182,4 +182,39 @@ theorem C17_keeper_rate_le_one :
     | updateSwapDenom d add => simp only [dispExec] at hx; exc_norm at hx; exc_split at hx <;> exact hle
     | updateOracle a => simp only [dispExec] at hx; exc_norm at hx; exc_split at hx; exact hle
 
+/-- The swap list holds the denominations the owner named, as named: an accepted UpdateSwapDenom
+    with `is_add` puts exactly that denomination on the list (every other entry stays), one without
+    takes exactly that denomination off (every other entry stays); nothing else of the
+    configuration moves. `convert_to_target_denoms` matches the list verbatim against the coins
+    the dispatcher holds, so this is what makes a coin of a listed denomination a reward coin. -/
+theorem C17_swap_list_update (c c' : DispSt) (self : Addr) (env : DispEnv) (sender : Addr) (d : Denom) (add : Bool)
+    (ms : List Msg) (hx : dispExec c self env sender (.updateSwapDenom d add) = .ok (c', ms)) :
+    (add = true → c'.swapDenoms.contains d = true) ∧
+    (add = false → c'.swapDenoms.contains d = false) ∧
+    (∀ x, x ≠ d → c'.swapDenoms.contains x = c.swapDenoms.contains x) ∧
+    c'.hub = c.hub ∧ c'.rewardContract = c.rewardContract ∧ c'.stDenom = c.stDenom ∧ c'.bDenom = c.bDenom ∧
+    c'.keeper = c.keeper ∧ c'.keeperRate = c.keeperRate ∧ c'.owner = c.owner ∧ ms = [] := by
+  simp only [dispExec] at hx
+  split at hx
+  · cases hx
+  · split at hx
+    · rename_i ha
+      injection hx with h1; injection h1 with h1 h2; subst h1; subst h2
+      refine ⟨fun _ => ?_, fun hf => ?_, fun x hne => ?_, rfl, rfl, rfl, rfl, rfl, rfl, rfl, rfl⟩
+      · simp [List.contains_eq_mem]
+      · rw [ha] at hf; cases hf
+      · simp only [List.contains_eq_mem, List.mem_append, List.mem_singleton, hne, or_false]
+    · rename_i ha
+      injection hx with h1; injection h1 with h1 h2; subst h1; subst h2
+      refine ⟨fun ht => ?_, fun _ => ?_, fun x hne => ?_, rfl, rfl, rfl, rfl, rfl, rfl, rfl, rfl⟩
+      · exact absurd ht ha
+      · simp [List.contains_eq_mem, List.mem_filter]
+      · simp [List.contains_eq_mem, List.mem_filter, hne]
+
+/-! Non-vacuity: the third denomination taken off and put back on the genesis list. -/
+example : ∃ c1 c2 : DispSt, ∃ e : DispEnv,
+    dispExec { (default : DispSt) with owner := 1, swapDenoms := [0, 1, 2] } 104 e 1 (.updateSwapDenom 2 false) = .ok (c1, []) ∧
+    dispExec c1 104 e 1 (.updateSwapDenom 2 true) = .ok (c2, []) ∧ c1.swapDenoms = [0, 1] ∧ c2.swapDenoms = [0, 1, 2] :=
+  ⟨_, _, ⟨fun _ => 0, none, fun _ _ _ => none⟩, rfl, rfl, rfl, rfl⟩
+
 end Krp
